@@ -698,13 +698,15 @@ def rule_from_impls(ctx, prog, rule="R6"):
     return n
 
 
-def rule_r6(ctx, prog, rule="R6"):
+def rule_r6(ctx, prog, rule="R6", only=None):
     from .rules_layout import producer_chain, axis_const
     n_routines = 0
     n_exits = 0
     untabled = []
     tabled_bodies = set()
     for (owner, name), spec in TABLE.items():
+        if only is not None and (owner, name) not in only:
+            continue
         ms = [b for b in prog.bodies.values() if b.name == name and not b.is_closure and
               ((b.raw.get("impl_trait") or "").endswith(owner) or ("<" + (b.raw.get("impl_self") or "") + " as " + (b.raw.get("impl_trait") or "")).endswith(owner)
                or (owner + "::" + name) == b.key or b.key.endswith(owner + "::" + name)
@@ -968,7 +970,7 @@ def rule_r6(ctx, prog, rule="R6"):
                % ("; ".join(cls_text(x) for x in bad_panics), sorted(set(matched_positions.values()))),
                what="panic precedes documented error")
     # untabled fallible routines: listed, not alarmed
-    for b in prog.bodies.values():
+    for b in (prog.bodies.values() if only is None else []):
         if b.is_closure or b.key in tabled_bodies:
             continue
         out = b.raw.get("output", "")
